@@ -55,12 +55,51 @@ def isoRel (m : Res F) (impl : Sx) (note : String := "") : Outcome :=
         | .inconclusive => { model := ms, agree := false, rel := "iso", decisive := false, note := "iso search inconclusive" }
     | _, _ => { model := ms, agree := false, rel := "iso", note := m.site }
 
+/-- ALL documented conditions that fail for raw hypergraph data (each evaluated on its own) -/
+def hgFailing (h : H) : List HGErr :=
+  (if h.s.len ≠ h.x.length then [HGErr.sourcesCount] else []) ++
+  (if h.t.len ≠ h.x.length then [HGErr.targetsCount] else []) ++
+  (if h.s.values.target ≠ h.w.length then [HGErr.sourcesSet] else []) ++
+  (if h.t.values.target ≠ h.w.length then [HGErr.targetsSet] else [])
+
+def ohgFailing (s t : FinFun) (h : H) : List HGErr :=
+  hgFailing h ++
+  (if s.target ≠ h.w.length then [HGErr.cospanSourceType] else []) ++
+  (if t.target ≠ h.w.length then [HGErr.cospanTargetType] else [])
+
+/-- a checked constructor: accepted iff the model accepts (then the same value); a rejection must name
+    a condition that actually fails — WHICH of several failing conditions is reported is left open by
+    C05 ("accepts iff the documented conditions hold") and C18 ("names a condition that actually fails") -/
+def rejectionRel (m : Sx) (failing : List String) (impl : Sx) : Outcome :=
+  if m == impl then { model := m, agree := true, rel := "exact" }
+  else match m, impl with
+    | .l [.s "err", _], .l [.s "err", .s e] =>
+      { model := m, agree := failing.contains e, rel := "rejection-names-a-failing-condition" }
+    | _, _ => { model := m, agree := false, rel := "exact" }
+
+/-- all conditions of `HypergraphArrow::validate` that fail (a condition whose evaluation needs an
+    earlier one to hold is evaluated whenever its own ingredients are defined) -/
+def arrowFailing (m : Graph.HArrow Nat Nat) : List Graph.ArrowErr :=
+  let g := m.source; let h := m.target
+  (match FinFun.composeSemi m.w h.w with
+   | .ok cw => if g.w ≠ cw then [Graph.ArrowErr.notNaturalW] else []
+   | _ => [Graph.ArrowErr.typeMismatchW]) ++
+  (match FinFun.composeSemi m.x h.x with
+   | .ok cx => if g.x ≠ cx then [Graph.ArrowErr.notNaturalX] else []
+   | _ => [Graph.ArrowErr.typeMismatchX]) ++
+  (match IC.mapValues g.s m.w, IC.mapIndexes h.s m.x with
+   | .ok a, .ok b => if a ≠ b then [Graph.ArrowErr.notNaturalS] else []
+   | _, _ => [Graph.ArrowErr.notNaturalS]) ++
+  (match IC.mapValues g.t m.w, IC.mapIndexes h.t m.x with
+   | .ok a, .ok b => if a ≠ b then [Graph.ArrowErr.notNaturalT] else []
+   | _, _ => [Graph.ArrowErr.notNaturalT])
+
 def hg (B : Backend) (op : String) (args : List Sx) (impl : Sx) : Option Outcome :=
   match op, args with
   | "hg.new", [s, t, w, x] => do
     let s : IC FinFun ← dec s; let t : IC FinFun ← dec t; let w : L ← dec w; let x : L ← dec x
     let m := encExcept (HG.new s t w x)
-    pure { model := m, agree := m == impl, rel := "exact" }
+    pure (rejectionRel m ((hgFailing ⟨s, t, w, x⟩).map HGErr.sym) impl)
   | "hg.empty", [] => pure (exact (Res.ok (HG.empty : H)) impl)
   | "hg.discrete", [w] => do
     let w : L ← dec w
@@ -94,7 +133,7 @@ def oh (B : Backend) (op : String) (args : List Sx) (impl : Sx) : Option Outcome
   | "oh.new", [s, t, h] => do
     let s : FinFun ← dec s; let t : FinFun ← dec t; let h : H ← dec h
     let m := encExcept (OHG.new s t h)
-    pure { model := m, agree := m == impl, rel := "exact" }
+    pure (rejectionRel m ((ohgFailing s t h).map HGErr.sym) impl)
   | "oh.singleton", [x, a, b] => do
     let x : Nat ← dec x; let a : L ← dec a; let b : L ← dec b
     pure (exact (OHG.singleton x a b : Res F) impl)
@@ -109,7 +148,7 @@ def oh (B : Backend) (op : String) (args : List Sx) (impl : Sx) : Option Outcome
     pure (exact f.target impl)
   | "oh.identity", [w] => do
     let w : L ← dec w
-    pure (exact (OHG.identity w : Res F) impl)
+    pure (isoRel (OHG.identity w : Res F) impl)
   | "oh.spider", [s, t, w] => do
     let s : FinFun ← dec s; let t : FinFun ← dec t; let w : L ← dec w
     pure (exact (OHG.spider s t w : Res F) impl)
@@ -121,7 +160,8 @@ def oh (B : Backend) (op : String) (args : List Sx) (impl : Sx) : Option Outcome
     pure (exact (OHG.tensor f g) impl)
   | "oh.twist", [a, b] => do
     let a : L ← dec a; let b : L ← dec b
-    pure (exact (OHG.twist a b : Res F) impl)
+    -- the layout of the symmetry (which leg carries the permutation) is not fixed by any property
+    pure (isoRel (OHG.twist a b : Res F) impl)
   | "oh.dagger", [f] => do
     let f : F ← dec f
     pure (exact (Res.ok f.dagger) impl)
@@ -170,6 +210,32 @@ def segPerm (m : Res (IC FinFun)) (impl : Sx) : Outcome :=
     | .ok a, some b => { model := ms, agree := segPermEq a b, rel := "segment-perm" }
     | _, _ => { model := ms, agree := false, rel := "segment-perm", note := m.site }
 
+/-- `y` depends on `x`: some target node of hyperedge `x` is a source node of hyperedge `y` -/
+def opDepB {O A : Type} (pd : PDiag O A) (x y : Nat) : Bool :=
+  match pd.edges[x]?, pd.edges[y]? with
+  | some ex, some ey => ex.tgt.any (fun v => ey.src.contains v)
+  | _, _ => false
+
+/-- C15's own criteria, judged on an answer `(order, unvisited)` for the diagram `pd`, given the flags
+    `mUnv` and the number `nLayers` of layers (= length of the longest dependency chain among visited
+    operations) that the proved model computes: the flags are the model's (exactly the operations on or
+    downstream of a cycle are unvisited: `kahn_spec`), and among VISITED operations every dependency
+    strictly increases the layer and the layers used are exactly `0 .. nLayers-1`.  What an unvisited
+    operation is assigned, and the size of the codomain, are left open by the property. -/
+def validLayering {O A : Type} (pd : PDiag O A) (mUnv : L) (nLayers : Nat) (iOrder iUnv : L) : Bool :=
+  let n := pd.edges.length
+  let visited := fun e => mUnv.getD e 1 == 0
+  let vis := (List.range n).filter visited
+  iUnv == mUnv && iOrder.length == n &&
+  vis.all (fun x => vis.all (fun y => !(opDepB pd x y) || decide (iOrder.getD x 0 < iOrder.getD y 0))) &&
+  vis.all (fun e => decide (iOrder.getD e 0 < nLayers)) &&
+  (List.range nLayers).all (fun k => vis.any (fun e => iOrder.getD e 0 == k))
+
+/-- number of layers the model uses among visited operations -/
+def layersUsed (mOrder mUnv : L) : Nat :=
+  let used := ((List.range mOrder.length).filter (fun e => mUnv.getD e 1 == 0)).map (fun e => mOrder.getD e 0)
+  if used.isEmpty then 0 else used.foldl max 0 + 1
+
 def graph (B : Backend) (op : String) (args : List Sx) (impl : Sx) : Option Outcome :=
   match op, args with
   | "graph.converse", [r] => do
@@ -205,7 +271,17 @@ def graph (B : Backend) (op : String) (args : List Sx) (impl : Sx) : Option Outc
     pure (exact (Graph.kahn B a) impl)
   | "graph.layer", [f] => do
     let f : F ← dec f
-    pure (exact (Graph.layer B f) impl)
+    let m := Graph.layer B f
+    let o := exact m impl
+    if o.agree then pure o else
+    match m, (unOk impl).bind (dec (α := FinFun × L)) with
+    | .ok (mo, mu), some (io, iu) =>
+      -- any layering that meets the property's criteria is accepted (the property does not say
+      -- "as early as possible", nor what an unvisited operation is assigned, nor the codomain)
+      let ag := io.table.all (fun v => decide (v < io.target)) &&
+        validLayering f.toPlain mu (layersUsed mo.table mu) io.table iu
+      pure { o with agree := ag, rel := "valid-layering(C15 criteria on the implementation's answer)" }
+    | _, _ => pure o
   | "graph.layered_operations", [f] => do
     let f : F ← dec f
     let m := Graph.layeredOperations B f
@@ -214,7 +290,17 @@ def graph (B : Backend) (op : String) (args : List Sx) (impl : Sx) : Option Outc
     else match m, (unOk impl).bind (dec (α := List L × L)) with
       | .ok (mg, mu), some (ig, iu) =>
         let ag := mu == iu && mg.length == ig.length && (mg.zip ig).all (fun p => isPerm p.1 p.2)
-        pure { model := ms, agree := ag, rel := "sets-per-layer" }
+        if ag then pure { model := ms, agree := true, rel := "sets-per-layer" } else
+        -- otherwise: every VISITED operation listed exactly once, and the layering read off the
+        -- groups (operation ↦ index of its group) meets the property's criteria
+        let n := f.h.x.length
+        let vis := (List.range n).filter (fun e => mu.getD e 1 == 0)
+        let once := vis.all (fun e => (ig.map (fun g => g.count e)).foldl (· + ·) 0 == 1)
+        let ord : L := (List.range n).map (fun e => (ig.findIdx? (fun g => g.contains e)).getD 0)
+        let mOrd : L := (List.range n).map (fun e => (mg.findIdx? (fun g => g.contains e)).getD 0)
+        let ag2 := once && ig.all (fun g => g.all (fun e => decide (e < n))) &&
+          validLayering f.toPlain mu (layersUsed mOrd mu) ord iu
+        pure { model := ms, agree := ag2, rel := "valid-layering(C15 criteria on the implementation's groups)" }
       | _, _ => pure { model := ms, agree := false, rel := "sets-per-layer", note := m.site }
   | "graph.arrow_new", [g, h, w, x] => do
     let g : H ← dec g; let h : H ← dec h; let w : FinFun ← dec w; let x : FinFun ← dec x
@@ -224,13 +310,19 @@ def graph (B : Backend) (op : String) (args : List Sx) (impl : Sx) : Option Outc
       | .ok (.error e) => .l [.s "err", .s e.sym]
       | .none => .s "none"
       | .panic _ => .s "panic"
-    pure { model := ms, agree := ms == impl, rel := "exact", note := r.site }
+    pure { rejectionRel ms ((arrowFailing ⟨g, h, w, x⟩).map Graph.ArrowErr.sym) impl with note := r.site }
   | "graph.is_monomorphism", [g, h, w, x] => do
     let g : H ← dec g; let h : H ← dec h; let w : FinFun ← dec w; let x : FinFun ← dec x
     pure (exact (Graph.HArrow.isMonomorphism ⟨g, h, w, x⟩) impl)
   | "graph.is_convex_subgraph", [g, h, w, x] => do
     let g : H ← dec g; let h : H ← dec h; let w : FinFun ← dec w; let x : FinFun ← dec x
-    pure (exact (Graph.HArrow.isConvexSubgraph B ⟨g, h, w, x⟩) impl)
+    -- C18 speaks about the convexity of (the image of) a MORPHISM: on a pair of maps that
+    -- `validate` rejects the answer is not specified
+    let o := exact (Graph.HArrow.isConvexSubgraph B ⟨g, h, w, x⟩) impl
+    if o.agree then pure o else
+    match Graph.HArrow.validate ⟨g, h, w, x⟩ with
+    | .ok (.ok ()) => pure o
+    | _ => pure { o with agree := true, rel := "outside-precondition(not a morphism)" }
   | _, _ => none
 
 /-! ### evaluation over the test signature (wrapping u64 arithmetic and bitwise gates) -/
@@ -274,10 +366,12 @@ def evalG (B : Backend) (op : String) (args : List Sx) (impl : Sx) : Option Outc
     else if !pre then pure { model := ms, agree := true, rel := "outside-precondition(multi-writer-or-arity)" }
     else match m, (unOk impl).bind (dec (α := L × List (List (Nat × L)))) with
       | .ok (mo, ml), some (io, il) =>
-        -- outputs exact; the log as a multiset of (label, args) per call
-        let ag := mo == io && ml.length == il.length &&
-          (ml.zip il).all (fun p => p.1.length == p.2.length &&
-            p.1.all (fun x => (p.1.filter (· == x)).length == (p.2.filter (· == x)).length))
+        -- outputs exact; every hyperedge interpreted exactly once on the values of its source
+        -- nodes: the (label, args) pairs of ALL calls form the same multiset (how the operations are
+        -- batched into calls, in which dependency-respecting order, is left open by the property)
+        let fm := ml.flatten; let fi := il.flatten
+        let ag := mo == io && fm.length == fi.length &&
+          fm.all (fun x => fm.count x == fi.count x)
         pure { model := ms, agree := ag, rel := "outputs-exact+log-multiset" }
       | _, _ => pure { model := ms, agree := false, rel := "outputs-exact+log-multiset", note := m.site }
   | _, _ => none
